@@ -48,6 +48,28 @@ def send_sync_scan(tier, seed):
             "note": "no unsafe impl Send/Sync, no static mut, no interior mutability outside the mergers" if not hits else "interior mutability / unsafe Send-Sync found"}
 
 
+def normaliser_table(tier, seed):
+    """C16: "changes only the characters in its table" -- the exhaustive tabulation of the live filter (all 1,112,064 scalar
+    values) is compared with the table pinned in corpus/C16/fullwidth.pinned"""
+    out = {"name": "normaliser_table", "evaluations": 1112064, "failures": [], "suspicions": []}
+    r = subprocess.run([HARNESS, "tabulate", "fullwidth-raw"], capture_output=True, text=True, env=ENV)
+    if r.returncode != 0:
+        out["suspicions"].append("tabulation of the normaliser failed: " + r.stderr[-300:])
+        return out
+    live = dict(l.split(" ", 1) for l in r.stdout.splitlines() if " " in l)
+    pinned = dict(l.split(" ", 1) for l in open(os.path.join(ROOT, "corpus", "C16", "fullwidth.pinned")).read().splitlines() if " " in l)
+    diff = sorted(set(live) ^ set(pinned) | {k for k in live if k in pinned and live[k] != pinned[k]}, key=lambda x: int(x, 16))
+    for k in diff[:3]:
+        c = chr(int(k, 16))
+        img = lambda v: "".join(chr(int(x, 16)) for x in v.split(".")) if v else c
+        out["failures"].append({"what": f"the normaliser maps U+{k} {c!r} to {img(live.get(k))!r}; its table says {img(pinned.get(k))!r}"
+                                        + ("" if k in pinned else " (the character is not in the table and must stay unchanged)"),
+                                "input_scalar": "U+" + k, "n_differences": len(diff)})
+    out["note"] = f"{len(live)} table entries compared with the pinned table ({len(diff)} differences)"
+    out["distinct_nontrivial"] = len(live)
+    return out
+
+
 FEATS = ["std", "cache-type-score", "fix-weight-length", "tag-prediction", "charwise-pma"]
 DRIVER = os.path.join(ROOT, "lean", ".lake", "build", "bin", "vdriver")
 
